@@ -7,6 +7,7 @@ CRATES = {
     "kani-ws-proto": {"kani_args": ["-Z", "stubbing"]},
     "kani-http-proto": {"kani_args": ["-Z", "stubbing"], "rustflags": GUARD},
     "kani-http": {"kani_args": ["-Z", "stubbing", "-Z", "unstable-options"], "rustflags": GUARD, "cbmc_args": ["--unwindset", "memcmp.0:22"]},
+    "kani-ws8": {"dir": "kani-ws", "kani_args": ["-Z", "stubbing", "-Z", "unstable-options"], "rustflags": GUARD, "cbmc_args": ["--unwindset", "memcmp.0:22"]},
     "kani-ws": {"kani_args": ["-Z", "stubbing", "-Z", "unstable-options"], "rustflags": GUARD + " --cfg verif_cap4 --cfg verif_cap2", "cbmc_args": ["--unwindset", "memcmp.0:22"]},
     "kani-udp": {"kani_args": ["-Z", "stubbing", "-Z", "unstable-options"], "rustflags": GUARD,
                  "cbmc_args": ["--unwindset", "memcmp.0:22"]},
@@ -26,6 +27,7 @@ KWP = "kani-ws-proto"
 KHP = "kani-http-proto"
 KH = "kani-http"
 KW = "kani-ws"
+KW8 = "kani-ws8"
 
 PROPS = {}
 
@@ -129,11 +131,12 @@ PROPS["C01"] = {
         H(KU, "c01::c01_announce_v4_small_n0", _ANN, "N=0 inline, IPv4", _C01_FUNCS[:2], cost=30),
         H(KU, "c01::c01_announce_v4_small_n1", _ANN, "N=1 inline, IPv4", _C01_FUNCS[:2], cost=60),
         H(KU, "c01::c01_announce_v4_small_n2", _ANN, "N=2 inline (crosses inline->heap), IPv4", _C01_FUNCS[:3], cost=200),
-        H(KU, "c01::c01_announce_v4_large_n3", _ANN, "N=3 heap (crosses heap->inline on stop), IPv4", _C01_FUNCS, cost=300),
-        H(KU, "c01::c01_announce_v4_large_n4", _ANN, "N=4 heap, IPv4", _C01_FUNCS, cost=400),
-        H(KU, "c01::c01_announce_v4_large_n5", _ANN, "N=5 heap, IPv4", _C01_FUNCS, tier="thorough", cost=900),
+        H(KU, "c01::c01_announce_v4_large_n3_state", _ANN + " [counts + post-state groups]", "N=3 heap (crosses heap->inline on stop), IPv4", _C01_FUNCS, cost=350),
+        H(KU, "c01::c01_announce_v4_large_n3_reply", _ANN + " [reply-list group]", "N=3 heap, IPv4", _C01_FUNCS, tier="thorough", cost=900, mem_gb=40, timeout=3000),
+        H(KU, "c01::c01_announce_v4_large_n4_state", _ANN + " [counts + post-state groups]", "N=4 heap, IPv4", _C01_FUNCS, tier="thorough", cost=700, mem_gb=30, timeout=3000),
+        H(KU, "c01::c01_announce_v4_large_n5_state", _ANN + " [counts + post-state groups]", "N=5 heap, IPv4", _C01_FUNCS, tier="thorough", cost=900, mem_gb=40, timeout=3600),
         H(KU, "c01::c01_announce_v6_small_n2", _ANN, "N=2 inline, IPv6", _C01_FUNCS[:3], tier="thorough", cost=300),
-        H(KU, "c01::c01_announce_v6_large_n3", _ANN, "N=3 heap, IPv6", _C01_FUNCS, tier="thorough", cost=400),
+        H(KU, "c01::c01_announce_v6_large_n3_state", _ANN + " [counts + post-state groups]", "N=3 heap, IPv6", _C01_FUNCS, tier="thorough", cost=400, mem_gb=30),
     ],
 }
 
@@ -191,44 +194,40 @@ PROPS["C14"] = {
     ],
 }
 
-_CLEAN = ("one real TorrentMapShards::clean_and_get_statistics over a torrent of exactly N symbolic peers: an entry survives <=> deadline > now (C10), survivors untouched, "
-          "returned totals == stored afterwards and one PeerRemoved per expired peer id (C20), forbidden torrent removed whatever its peers (C11), empty torrent removed, heap map shrinks when <= 2 remain (C01)")
-_CLEAN_H = [
-    H(KU, "clean::clean_v4_small_n0", _CLEAN, "N=0 inline", ["TorrentMapShards::clean_and_get_statistics"], cost=30),
-    H(KU, "clean::clean_v4_small_n1", _CLEAN, "N=1 inline", ["SmallPeerMap::clean_and_get_num_peers"], cost=60),
-    H(KU, "clean::clean_v4_small_n2", _CLEAN, "N=2 inline", ["SmallPeerMap::clean_and_get_num_peers"], cost=100),
-    H(KU, "clean::clean_v4_large_n3", _CLEAN, "N=3 heap", ["LargePeerMap::clean_and_get_num_peers", "LargePeerMap::try_shrink"], cost=200),
-    H(KU, "clean::clean_v4_large_n4", _CLEAN, "N=4 heap", ["LargePeerMap::clean_and_get_num_peers", "LargePeerMap::try_shrink"], cost=300),
-    H(KU, "clean::clean_v4_large_n3_nostats", _CLEAN, "N=3 heap, peer_clients off", ["LargePeerMap::clean_and_get_num_peers"], tier="thorough", cost=200),
-    H(KU, "clean::clean_v6_small_n2", _CLEAN, "N=2 inline, IPv6", ["SmallPeerMap::clean_and_get_num_peers"], tier="thorough", cost=100),
-    H(KU, "clean::clean_v6_large_n3", _CLEAN, "N=3 heap, IPv6", ["LargePeerMap::clean_and_get_num_peers"], tier="thorough", cost=200),
+_LEAF = ("SmallPeerMap / LargePeerMap::clean_and_get_num_peers (+ try_shrink, with the 3 lines of dispatch glue of clean_and_get_statistics replicated) on exactly N symbolic peers: "
+         "an entry survives <=> deadline > now (C10) whatever the representation and its neighbours, survivors untouched, returned counts == stored, cached seeder count consistent, heap map shrinks when <= 2 remain, emptied map is_empty (C01)")
+_LEAF_H = [
+    H(KU, "clean::leaf_clean_v4_small_n0", _LEAF, "N=0 inline", ["SmallPeerMap::clean_and_get_num_peers"], cost=20),
+    H(KU, "clean::leaf_clean_v4_small_n1", _LEAF, "N=1 inline", ["SmallPeerMap::clean_and_get_num_peers"], cost=30),
+    H(KU, "clean::leaf_clean_v4_small_n2", _LEAF, "N=2 inline", ["SmallPeerMap::clean_and_get_num_peers"], cost=40),
+    H(KU, "clean::leaf_clean_v4_large_n3", _LEAF, "N=3 heap", ["LargePeerMap::clean_and_get_num_peers", "LargePeerMap::try_shrink"], cost=60),
+    H(KU, "clean::leaf_clean_v4_large_n4", _LEAF, "N=4 heap", ["LargePeerMap::clean_and_get_num_peers", "LargePeerMap::try_shrink"], cost=90),
+    H(KU, "clean::leaf_clean_v6_large_n3", _LEAF, "N=3 heap, IPv6", ["LargePeerMap::clean_and_get_num_peers"], tier="thorough", cost=90),
 ]
-_CLEANMAPS = ("one real TorrentMaps::clean_and_update_statistics over one IPv4 and one IPv6 torrent: per-family stored state == reference, published per-family totals == stored (exactly when statistics are active), "
-              "forbidden torrents removed in both families for every list content incl. the empty list, no lock left held")
-_CLEANMAPS_H = [
-    H(KU, "clean::cleanmaps_1_2", _CLEANMAPS, "1 v4 peer (inline), 2 v6 peers (inline)", ["TorrentMaps::clean_and_update_statistics"], cost=150),
-    H(KU, "clean::cleanmaps_3_2", _CLEANMAPS, "3 v4 peers (heap), 2 v6 peers (inline)", ["TorrentMaps::clean_and_update_statistics"], cost=300),
-    H(KU, "clean::cleanmaps_2_3", _CLEANMAPS, "2 v4 peers (inline), 3 v6 peers (heap)", ["TorrentMaps::clean_and_update_statistics"], tier="thorough", cost=300),
+_LEAFSTAT = _LEAF + "; with client statistics on: exactly one PeerRemoved per expired peer, carrying its peer id (C20)"
+_LEAFSTAT_H = [
+    H(KU, "clean::leaf_cleanstats_v4_small_n1", _LEAFSTAT, "N=1 inline, peer_clients on", ["SmallPeerMap::clean_and_get_num_peers"], cost=300, mem_gb=30, timeout=2400),
+    H(KU, "clean::leaf_cleanstats_v4_large_n3", _LEAFSTAT, "N=3 heap, peer_clients on", ["LargePeerMap::clean_and_get_num_peers"], tier="thorough", cost=900, mem_gb=44, timeout=3600),
 ]
-PROPS["C10"]["harnesses"] += [dict(h) for h in _CLEAN_H]
-PROPS["C10"]["functions"] += ["aquatic_udp::swarm::{TorrentMapShards::clean_and_get_statistics, SmallPeerMap::clean_and_get_num_peers, LargePeerMap::{clean_and_get_num_peers,try_shrink}}"]
-PROPS["C10"]["bounds"] += "; storage level (udp): torrents of 0..4 peers quick, IPv6 thorough, one cleaning pass from any state, all deadlines and clock values"
-PROPS["C11"]["harnesses"] += [dict(h) for h in _CLEANMAPS_H] + [dict(h) for h in _CLEAN_H[:4]]
-PROPS["C01"]["harnesses"] += [dict(h) for h in _CLEAN_H[:5]]
+PROPS["C10"]["harnesses"] += [dict(h) for h in _LEAF_H]
+PROPS["C10"]["functions"] += ["aquatic_udp::swarm::{SmallPeerMap::clean_and_get_num_peers, LargePeerMap::{clean_and_get_num_peers,try_shrink}}"]
+PROPS["C10"]["bounds"] += "; storage level: udp peer maps of 0..4 peers, http torrents of 0..2 (3 thorough), ws torrents of 0..1 peers and <= 1 pending offer, one cleaning pass from any state, all deadlines and clock values"
+PROPS["C01"]["harnesses"] += [dict(h) for h in _LEAF_H[:5]]
 
 _TALLY = ("one PeerMap::announce with client statistics on: for every peer id p, #PeerAdded(p) - #PeerRemoved(p) emitted == change in the number of stored peers carrying p")
 PROPS["C20"] = {
     "level": "model_checking",
     "functions": ["aquatic_udp::swarm::{TorrentMaps::clean_and_update_statistics, TorrentMapShards::clean_and_get_statistics, PeerMap::announce (PeerAdded/PeerRemoved), *::clean_and_get_num_peers}"],
-    "bounds": "announce step from any state of 1..3 peers; cleaning pass over torrents of 0..4 peers (one per family); all clock values, deadlines, peer ids",
-    "outside": "the statistics worker's own += / -= loop, HTML/prometheus output; scrape export file contents and atomic replacement (File/BufWriter/rename are OS calls a SAT solver has no model of; the export writer is None in every harness)",
+    "bounds": "announce step from any state of 1..3 peers with client statistics on; per-torrent cleaning of 1 (3 thorough) peers with client statistics on; all clock values, deadlines, peer ids",
+    "outside": "per-family torrent/peer totals and the export lines written by TorrentMapShards::clean_and_get_statistics / TorrentMaps::clean_and_update_statistics: the shard-level functions (Arc<RwLock<..>> maps) exhaust CBMC's memory (>30 GB) even for one empty torrent - NOT decided; "
+               "the statistics worker's own += / -= loop; scrape export file contents and atomic replacement (File/BufWriter/rename are OS calls a SAT solver has no model of)",
     "models": ["crossbeam Sender::try_send -> log", "container/lock models as in C01"],
     "assumptions": ["unbounded channel never fails"],
     "harnesses": [
         H(KU, "c01::c20_tally_v4_small_n1", _TALLY, "N=1 inline", ["PeerMap::announce"], cost=100),
         H(KU, "c01::c20_tally_v4_small_n2", _TALLY, "N=2 inline", ["PeerMap::announce"], cost=200),
         H(KU, "c01::c20_tally_v4_large_n3", _TALLY, "N=3 heap", ["PeerMap::announce"], cost=300),
-    ] + [dict(h) for h in _CLEAN_H[:5]] + [dict(h) for h in _CLEANMAPS_H],
+    ] + [dict(h) for h in _LEAFSTAT_H],
 }
 
 _HR = "WorkerSharedData::handle_request: None unless connect or valid connection id; reply kind == request kind; announce family == source family; transaction id echoed; forbidden hash -> error and no state; scrape lists exactly the requested torrents; unauthenticated requests create no state"
@@ -290,6 +289,69 @@ PROPS["C18"] = {
     "models": [],
     "assumptions": ["a reply holds at most min(requested, max_response_peers|max_peers) peers (C02) and at most max_scrape_torrents entries (C06/C07)"],
     "harnesses": [H("smt", q, "exists accepted config + accepted request with reply longer than its buffer? (default config; any config)", "unbounded", [], engine="z3", cost=1) for q in _C18Q],
+}
+
+_WS = dict(mem_gb=44, timeout=2400)
+_C08A = ("one TorrentMap::handle_announce_request (no offers/answer) on a torrent of N stored peers with arbitrary owners: an announce using a peer id owned by another (socket worker, connection) pair is ignored - no reply, entry untouched; "
+         "otherwise exactly one AnnounceResponse to the sender with complete/incomplete == stored seeders/leechers incl. the announcer, post-state == reference (stop removes, left==Some(0)<=>seeder, deadline = clock+max_peer_age, owner kept/set), others untouched")
+PROPS["C08"] = {
+    "level": "model_checking",
+    "functions": ["aquatic_ws::workers::swarm::storage::{TorrentMap::{handle_announce_request,handle_scrape_request,handle_connection_closed,clean}, TorrentData::{insert_or_update_peer,handle_connection_closed,clean_and_get_num_peers}}"],
+    "bounds": "one torrent holding N <= 1 stored peers (+ the announcer; model map capacity 2 because stored peers themselves hold a map of pending offers and CBMC's cost grows quadratically); all ids, owners (worker id u8, slot index u32), events, left, clock and age values",
+    "outside": ">= 2 stored peers; the socket worker's bookkeeping of announced_info_hashes (connection.rs, glommio): the clause 'no effect when that other connection later closes' depends on it and is NOT decided here - "
+               "handle_connection_closed carries no connection identity, so at storage level only 'removes exactly the named entry' is checked; multi-worker routing (C17)",
+    "models": ["IndexMap / hashbrown::HashMap -> array-backed models (capacity 2 in this crate)", "tracker clock -> harness-chosen second (hook)", "ws_protocol compiled from /repo's files against the hashbrown model (shims/ws-protocol-mount)"],
+    "assumptions": ["storage.rs, common.rs, config.rs are compiled in place by harness/kani-ws (aquatic_ws itself cannot be built by Kani)"],
+    "harnesses": [
+        H(KW, "c08::c08_announce_n0", _C08A, "N=0", [], cost=600, **_WS),
+        H(KW, "c08::c08_announce_n1", _C08A, "N=1 (ownership)", [], cost=1000, **_WS),
+        H(KW, "c08::c08_scrape_n1_k1", "scrape: exactly one reply to the sender (pending id kept); requested (within max_scrape_torrents) and stored <=> listed with true counts; nothing else listed", "N=1, 1 hash", [], cost=60, mem_gb=20),
+        H(KW, "c08::c08_scrape_n1_k2", "scrape as above", "N=1, 2 hashes", [], tier="thorough", cost=120, mem_gb=20),
+        H(KW, "c08::c08_clean_n0", "TorrentMap::clean: peer kept <=> deadline > now; pending offer kept <=> its deadline > now; forbidden / empty torrent dropped", "N=0", [], cost=60, mem_gb=20),
+        H(KW, "c08::c08_clean_n1", "TorrentMap::clean as above", "N=1", [], cost=120, mem_gb=20),
+        H(KW, "c08::c08_clean_n2", "TorrentMap::clean as above", "N=2", [], tier="thorough", cost=600, **_WS),
+        H(KW, "c08::c08_close_n1", "handle_connection_closed removes exactly the named entry of the named torrent; seeder count adjusted", "N=1", [], cost=60, mem_gb=20),
+        H(KW, "c08::c08_close_n2", "handle_connection_closed as above", "N=2", [], tier="thorough", cost=200, mem_gb=30),
+    ],
+}
+_C09O = ("announce with K offers from a fresh peer: forwarded == min(K, max_offers, stored others) (none on stop), each OfferOutMessage tagged with the sender's peer id / offer id i / info hash, addressed to a stored peer's own connection, distinct offers to distinct peers, "
+         "sender gains exactly the expectations (receiver, offer id) with deadline clock+max_offer_age; last message is the reply to the sender")
+_C09A = ("announce carrying an answer (to R, offer o) from P: AnswerOutMessage to R's connection <=> R stored and (P,o) pending at R; then that expectation is consumed (a second identical answer cannot be forwarded); "
+         "otherwise an ErrorResponse to P (R stored) or nothing (R absent); never a forwarded message without a matching pending offer")
+PROPS["C09"] = {
+    "level": "model_checking",
+    "functions": ["aquatic_ws storage::{TorrentData::{handle_offers,handle_answer}, extract_response_peers, TorrentMap::handle_announce_request}"],
+    "bounds": "N <= 1 stored peers (capacity-2 model maps), K <= 2 offers, max_offers 0..3, at most one pending offer per stored peer in the pre-state; all ids / owners / clock",
+    "outside": ">= 2 receivers (receiver distinctness is exercised only through extract_response_peers in C02); expiry of pending offers is C10/C08 clean",
+    "models": PROPS["C08"]["models"],
+    "assumptions": PROPS["C08"]["assumptions"],
+    "harnesses": [
+        H(KW, "c08::c09_offers_n0_k1", _C09O, "N=0, 1 offer", [], cost=600, **_WS),
+        H(KW, "c08::c09_offers_n1_k1", _C09O, "N=1, 1 offer", [], cost=1000, **_WS),
+        H(KW, "c08::c09_offers_n1_k2", _C09O, "N=1, 2 offers", [], tier="thorough", cost=1200, **_WS),
+        H(KW, "c08::c09_answer_n0", _C09A, "N=0", [], cost=600, **_WS),
+        H(KW, "c08::c09_answer_n1", _C09A, "N=1", [], cost=1000, **_WS),
+    ],
+}
+PROPS["C10"]["harnesses"] += [dict(h) for h in PROPS["C08"]["harnesses"][4:6]]
+PROPS["C11"]["harnesses"] += [dict(h) for h in PROPS["C08"]["harnesses"][5:6]]
+
+_C02W = "ws extract_response_peers: result <= limit, distinct, members, never the sender; all others when they fit, else exactly limit - for every RNG state, every limit 0..N+2, sender present or absent"
+PROPS["C02"] = {
+    "level": "model_checking",
+    "functions": ["udp LargePeerMap/SmallPeerMap::extract_response_peers (inside PeerMap::announce)", "http LargePeerMap/SmallPeerMap::extract_response_peers (inside upsert_peer_and_get_response_peers)",
+                  "ws storage::extract_response_peers", "rand SmallRng + UniformInt sampling (real code, arbitrary generator state)"],
+    "bounds": "udp swarms of 0..3 other peers quick (reply group for heap maps thorough), http 0..2 quick (..5 thorough), ws 0..6 peers; limits 0..8 (udp/http) / 0..N+2 (ws); numwant full width; every xoshiro256++ state",
+    "outside": "swarms larger than the stated sizes (the half-range index arithmetic is exercised only up to 6 peers, not for arbitrary usize lengths); family separation is by type parameter (one instantiation per family)",
+    "models": ["IndexMap -> array-backed insertion-ordered model with get_range semantics of indexmap (Some iff start <= end <= len)"],
+    "assumptions": ["indexmap::get_range behaves as documented"],
+    "harnesses": [
+        H(KW8, "c08::c02_ws_extract_n0", _C02W, "N=0", ["extract_response_peers"], cost=20),
+        H(KW8, "c08::c02_ws_extract_n2", _C02W, "N=2", ["extract_response_peers"], cost=60),
+        H(KW8, "c08::c02_ws_extract_n4", _C02W, "N=4 (random half-range branch)", ["extract_response_peers"], cost=200),
+        H(KW8, "c08::c02_ws_extract_n6", _C02W, "N=6", ["extract_response_peers"], tier="thorough", cost=600, mem_gb=30),
+    ] + [dict(h) for h in PROPS["C01"]["harnesses"][:4]] + [dict(h) for h in PROPS["C07"]["harnesses"][:3]]
+      + [dict(h) for h in PROPS["C01"]["harnesses"] if h["name"].endswith("_reply")] + [dict(h) for h in PROPS["C07"]["harnesses"][3:6]],
 }
 
 
